@@ -1,10 +1,12 @@
 import Driver.Params
 import Driver.Pool
 import Driver.Dec
+import Driver.Mem
 
 def main (args : List String) : IO UInt32 := do
   match args with
   | ["params"] => Driver.Params.main; return 0
   | ["pool"] => Driver.Pool.main; return 0
   | ["dec"] => Driver.Dec.main; return 0
+  | ["mem"] => Driver.Mem.main; return 0
   | _ => IO.eprintln "usage: zvdriver <model>"; return 2
